@@ -20,6 +20,18 @@ for line in open(os.path.join(V, 'properties.jsonl')):
 ids = ids or sorted(props)
 
 FOCUS = {
+    '9': ('the checker that will judge your change has already met every idea in the list below and varies far more than they name: '
+          'dtypes and storage types of every argument, objects used-then-edited-then-used-again, process-wide state, distorted and '
+          'oblong-pixel WCS, letter case and white space of every text form, pathlib vs string paths, values beyond 2^52, and it '
+          'compares every public spelling of an operation with every other.  A change survives only if it is SUBTLE: prefer '
+          '(a) numerical slips that stay below a loose tolerance except in one regime (very elongated shapes, angles near but not at a '
+          'quarter turn, radii near half-integers, centres with a large integer part, latitudes near a pole, separations near 180 '
+          'degrees), (b) a wrong answer for exactly one CLASS x MODE x FLAG combination out of the many that share a code path, '
+          '(c) state that leaks only through a THIRD object (a copy of a copy, a region taken out of a Regions list, the operand of a '
+          'compound, a mask of a mask), (d) the second, third or LAST call of a sequence differing from the first, (e) read-side '
+          'leniency: an input form that used to be accepted and is now silently read as something else, and (f) anything the property '
+          'text promises that none of the used ideas below has ever attacked - re-read the statement clause by clause and find the clause '
+          'with the fewest ideas against it'),
     '8': ('the checker that will judge your change is thorough: besides everything in the list of used ideas below it compares files '
           'with serialised text, reads what it writes through every extension, varies units / flags / dtypes / memory layouts / '
           'frames / header encodings / axis orders, uses results before judging them, edits parsed objects and parses again, and looks '
